@@ -567,7 +567,10 @@ def generate(prop, seed, profile=None):
     if knobs.get("wide"):
         K = len(knobs["keys"])
         nid = max([o["id"] for o in ops if isinstance(o["id"], int)] + [0]) + 1
-        ops.insert(rng.randint(0, len(ops)), {"id": nid, "op": "GET", "keys": rng.sample(range(K), rng.randint(51, K)), "dt": 1000})
+        at = rng.randint(0, len(ops))
+        if 0 < at < len(ops) and ops[at - 1]["op"] == "FOREIGN" and ops[at - 1]["name"].startswith("linkentry:"):
+            at += 1  # not between a pre-seeding and the reopen that belongs to it
+        ops.insert(at, {"id": nid, "op": "GET", "keys": rng.sample(range(K), rng.randint(51, K)), "dt": 1000})
     rec = {"property": prop, "seed": seed, "knobs": knobs, "ops": ops, "faults": [], "crash": None, "clock_events": []}
     if knobs["clock"]["policy"] == "jumpy":
         for _ in range(rng.randint(1, 2)):
